@@ -103,6 +103,121 @@ func classifyHeaderByte(v ssa.Value, n ssa.Value) string {
 	return fmt.Sprintf("sextet>>%d&%d+%d", sh, mask, off)
 }
 
+// sextetFill: h(dst []byte, n int) is
+//
+//	shift := 6*len(dst); for i := range dst { shift -= 6; dst[i] = byte((n>>shift)&63) + 63 }
+//
+// i.e. dst[i] receives digit len(dst)-1-i of n in base 64, plus 63. The loop is read once, in
+// this one form (a counter from 0 in unit steps, a shift that starts at 6*len(dst) and is lowered
+// by 6 before each use); anything else is not recognised.
+func sextetFill(h *ssa.Function) bool {
+	if len(h.Params) != 2 || h.Blocks == nil {
+		return false
+	}
+	dst, n := ssa.Value(h.Params[0]), ssa.Value(h.Params[1])
+	found := false
+	for _, b := range h.Blocks {
+		for _, in := range b.Instrs {
+			st, ok := in.(*ssa.Store)
+			if !ok {
+				continue
+			}
+			ia, ok := st.Addr.(*ssa.IndexAddr)
+			if !ok || ia.X != dst {
+				return false // some other store: not the pure fill
+			}
+			// index: the range counter (phi(-1, idx) + 1) or phi(0, idx+1)
+			okIdx := false
+			switch ix := ia.Index.(type) {
+			case *ssa.BinOp:
+				if ph, isPhi := ix.X.(*ssa.Phi); isPhi && ix.Op == token.ADD {
+					if one, isK := constInt(ix.Y); isK && one == 1 && len(ph.Edges) == 2 {
+						for i, e := range ph.Edges {
+							if k, isK := constInt(e); isK && k == -1 && ph.Edges[1-i] == ssa.Value(ix) {
+								okIdx = true
+							}
+						}
+					}
+				}
+			case *ssa.Phi:
+				if len(ix.Edges) == 2 {
+					for i, e := range ix.Edges {
+						if k, isK := constInt(e); isK && k == 0 {
+							if inc, isInc := ix.Edges[1-i].(*ssa.BinOp); isInc && inc.Op == token.ADD && inc.X == ssa.Value(ix) {
+								if one, isK := constInt(inc.Y); isK && one == 1 {
+									okIdx = true
+								}
+							}
+						}
+					}
+				}
+			}
+			if !okIdx {
+				return false
+			}
+			// value: byte((n >> S) & 63) + 63 with S = shiftPhi - 6, shiftPhi = phi(6*len(dst), S)
+			add, ok := st.Val.(*ssa.BinOp)
+			if !ok || add.Op != token.ADD {
+				return false
+			}
+			if k, isK := constInt(add.Y); !isK || k != 63 {
+				return false
+			}
+			cv, ok := add.X.(*ssa.Convert)
+			if !ok {
+				return false
+			}
+			and, ok := cv.X.(*ssa.BinOp)
+			if !ok || and.Op != token.AND {
+				return false
+			}
+			if k, isK := constInt(and.Y); !isK || k != 63 {
+				return false
+			}
+			shr, ok := and.X.(*ssa.BinOp)
+			if !ok || shr.Op != token.SHR || shr.X != n {
+				return false
+			}
+			S, ok := stripAll(shr.Y).(*ssa.BinOp)
+			if !ok || S.Op != token.SUB {
+				return false
+			}
+			if k, isK := constInt(S.Y); !isK || k != 6 {
+				return false
+			}
+			ph, ok := S.X.(*ssa.Phi)
+			if !ok || len(ph.Edges) != 2 {
+				return false
+			}
+			okShift := false
+			for i, e := range ph.Edges {
+				if ph.Edges[1-i] != ssa.Value(S) {
+					continue
+				}
+				init := stripAll(e)
+				if mul, isMul := init.(*ssa.BinOp); isMul && mul.Op == token.MUL {
+					var l ssa.Value
+					if k, isK := constInt(mul.X); isK && k == 6 {
+						l = mul.Y
+					} else if k, isK := constInt(mul.Y); isK && k == 6 {
+						l = mul.X
+					}
+					if call, isCall := l.(*ssa.Call); isCall {
+						if bi, isB := call.Call.Value.(*ssa.Builtin); isB && bi.Name() == "len" && call.Call.Args[0] == dst {
+							okShift = true
+						}
+					}
+				}
+			}
+			if !okShift {
+				return false
+			}
+			found = true
+		}
+	}
+	return found
+}
+
 // encoderHeaders: threshold -> (initial length, stores), for branches `n <= T`.
 func encoderHeaders(c *Ctx, r *RuleResult, fn *ssa.Function) (map[string][]hdrStore, map[string]int64, ssa.Value) {
 	// n = the value compared in the `<=` chain
@@ -142,6 +257,29 @@ func encoderHeaders(c *Ctx, r *RuleResult, fn *ssa.Function) (map[string][]hdrSt
 					continue
 				}
 				stores[T] = append(stores[T], hdrStore{idx, classifyHeaderByte(x.Val, n)})
+			case *ssa.Call:
+				// putSextets(s[a:b], n): a helper that fills its slice with the base-64 digits of n, most
+				// significant first; with a constant window it stands for the stores it performs
+				h := x.Call.StaticCallee()
+				if h == nil || !c.inModule(h) || len(x.Call.Args) != 2 || x.Call.Args[1] != n {
+					continue
+				}
+				win, ok := x.Call.Args[0].(*ssa.Slice)
+				if !ok || win.Low == nil || win.High == nil {
+					continue
+				}
+				if _, isMk := win.X.(*ssa.MakeSlice); !isMk {
+					continue
+				}
+				a, okA := constInt(win.Low)
+				b, okB := constInt(win.High)
+				if !okA || !okB || b <= a || !sextetFill(h) {
+					continue
+				}
+				L := b - a
+				for i := int64(0); i < L; i++ {
+					stores[T] = append(stores[T], hdrStore{a + i, fmt.Sprintf("sextet>>%d&63+63", 6*(L-1-i))})
+				}
 			}
 		}
 		sort.Slice(stores[T], func(i, j int) bool { return stores[T][i].idx < stores[T][j].idx })
